@@ -2,6 +2,7 @@ import Casket.Proofs.Parser
 import Casket.Proofs.ParserTerm
 import Casket.Proofs.ParserTotal
 import Casket.Proofs.ParserRT
+import Casket.Proofs.ParserSplice
 import Casket.Proofs.ParserCycle
 import Casket.Proofs.Env
 import Casket.Proofs.Lexer
@@ -176,6 +177,62 @@ example :
     (expectedBlock b).keys = [[0x68, 0x6F, 0x73, 0x74], [0x62]] ∧
     (expectedBlock b).tokens.map (fun p => (p.1, p.2.length)) = [([0x64, 0x69, 0x72], 6), ([0x6C, 0x6F, 0x67], 1)] := by
   decide
+
+/-- Structure preservation ACROSS an import.  A server block one run of whose directives has been moved, as whole
+lines, into a file and replaced by the line `import <file>` parses — together with any blocks written after it —
+to the blocks of the inline text in which that run stands in its place: same keys, and per directive name the
+same tokens in order; the tokens of the run carry the file's name and lines (`fileToks`).
+PARTIAL — what is missing: more than one import per parse, an import in a block other than the first, imports
+nested in sub-blocks or at address position, glob patterns matching several files, snippets (all of these are
+covered by the stream c10.rt, which splits at random up to three levels deep). -/
+theorem C10_import_splice_partial (cfg : Cfg) (hf : 0 < cfg.envFuel) (hv : cfg.valid = none) (hcc : cfg.cycleCheck = true)
+    (fn : String) (b : WBlockI) (run : List WDir) (bs : List WBlock) (name : String) (content : Bytes)
+    (hline : importLineOK b ((dirToks b.ds2 ++ [b.close]).head?.getD b.close) = true)
+    (hres : resolve cfg.fs b.arg.text = .files [(name, content)]) (hcont : content.isEmpty = false)
+    (hrun : dirToks run = fileToks name content)
+    (hinl : blockOK (b.inline run) = true) (hbs : ∀ x ∈ bs, blockOK x = true) (fuel : Nat)
+    (hfuel : 2 * (b.toks ++ flatten bs).length + 2 * (fileToks name content).length + 6 ≤ fuel) :
+    parseTokens cfg fuel fn (b.toks ++ flatten bs) = .ok (expectedBlock (b.inline run) :: bs.map expectedBlock) :=
+  parse_splice cfg hf hv hcc fn b run bs name content hline hres hcont hrun hinl hbs fuel hfuel
+
+/-- non-vacuity (a test, by evaluation): `host {⏎ dir1 a⏎ import f0⏎ log⏎}` with the file `f0` = `dir2 x⏎` satisfies every
+hypothesis of the splice theorem — the lexer's tokens are `b.toks`, the import line is well formed, the file resolves, its
+tokens are the run, and the inline block passes `blockOK` -/
+example :
+    let t (f : String) (l : Nat) (s : List UInt8) : Token := ⟨f, l, s⟩
+    let b : WBlockI := {
+      keys := [t "" 1 [0x68, 0x6F, 0x73, 0x74]], open_ := t "" 1 lbrace, ds1 := [⟨t "" 2 [0x64, 0x69, 0x72, 0x31], [t "" 2 [0x61]]⟩],
+      imp := t "" 3 sImport, arg := t "" 3 [0x66, 0x30], ds2 := [⟨t "" 4 [0x6C, 0x6F, 0x67], []⟩], close := t "" 5 rbrace }
+    let run : List WDir := [⟨t "f0" 1 [0x64, 0x69, 0x72, 0x32], [t "f0" 1 [0x78]]⟩]
+    let fs : FS := ⟨[("f0", [0x64, 0x69, 0x72, 0x32, 0x20, 0x78, 0x0A])]⟩
+    lex [0x68, 0x6F, 0x73, 0x74, 0x20, 0x7B, 0x0A, 0x20, 0x64, 0x69, 0x72, 0x31, 0x20, 0x61, 0x0A, 0x20, 0x69, 0x6D, 0x70, 0x6F, 0x72, 0x74, 0x20, 0x66, 0x30, 0x0A, 0x20, 0x6C, 0x6F, 0x67, 0x0A, 0x7D] = b.toks ∧
+    importLineOK b ((dirToks b.ds2 ++ [b.close]).head?.getD b.close) = true ∧
+    resolve fs b.arg.text = .files [("f0", [0x64, 0x69, 0x72, 0x32, 0x20, 0x78, 0x0A])] ∧
+    dirToks run = fileToks "f0" [0x64, 0x69, 0x72, 0x32, 0x20, 0x78, 0x0A] ∧ blockOK (b.inline run) = true := by
+  decide
+
+/-- "Regardless of whether the text was written inline or in an imported file": if the same directives (same texts,
+`dirTexts`) are written inline as `runI` — any layout that is a written configuration — instead of being imported,
+both parses succeed and return the same blocks up to the tokens' file/line attributes (`textsOf`: keys, and
+per directive name the token texts in order).  PARTIAL: same scope as `C10_import_splice_partial`. -/
+theorem C10_inline_import_equiv_partial (cfg : Cfg) (hf : 0 < cfg.envFuel) (hv : cfg.valid = none) (hcc : cfg.cycleCheck = true)
+    (fn : String) (b : WBlockI) (run runI : List WDir) (bs : List WBlock) (name : String) (content : Bytes)
+    (hline : importLineOK b ((dirToks b.ds2 ++ [b.close]).head?.getD b.close) = true)
+    (hres : resolve cfg.fs b.arg.text = .files [(name, content)]) (hcont : content.isEmpty = false)
+    (hrun : dirToks run = fileToks name content)
+    (hinl : blockOK (b.inline run) = true) (hinlI : blockOK (b.inline runI) = true)
+    (hsame : run.map dirTexts = runI.map dirTexts) (hbs : ∀ x ∈ bs, blockOK x = true) (fuel : Nat)
+    (hfuel : 2 * (b.toks ++ flatten bs).length + 2 * (fileToks name content).length + 6 ≤ fuel)
+    (hfuelI : (flatten (b.inline runI :: bs)).length + 1 ≤ fuel) :
+    ∃ r1 r2, parseTokens cfg fuel fn (b.toks ++ flatten bs) = .ok r1 ∧
+      parseTokens cfg fuel fn (flatten (b.inline runI :: bs)) = .ok r2 ∧ r1.map textsOf = r2.map textsOf := by
+  refine ⟨_, _, parse_splice cfg hf hv hcc fn b run bs name content hline hres hcont hrun hinl hbs fuel hfuel,
+    parseTokens_rt cfg hf hv fn (b.inline runI :: bs) (fun x hx => by
+      rcases List.mem_cons.mp hx with rfl | hx
+      · exact hinlI
+      · exact hbs x hx) fuel hfuelI, ?_⟩
+  simp only [List.map_cons, List.cons.injEq, and_true]
+  exact textsOf_expected b run runI hsame
 
 /-! ### environment placeholders -/
 
